@@ -1011,6 +1011,10 @@ func init() {
 			{"cfg plain 0 1 1 ds 20", "setctx 1 0", "setroutine 1", "settle", "exit old err 1", "settle", "setctx 2 0", "advance", "exit old ok", "quiesce"},
 			// D17 (open): a retry timer that fired before stop() restarts a routine that has succeeded meanwhile
 			{"cfg plain 0 1 1 ds 20", "setctx 1 0", "setroutine 1", "settle", "exit old err 1", "settle", "gate hold", "waitgate 0", "restart", "settle", "exit old ok", "settle", "open 0", "settle", "quiesce", "exit old ok", "quiesce"},
+			// a retry timer that has fired waits for the lock while RestartRoutine runs: it must leave the new instance alone
+			{"cfg plain 0 1 1 ds 20", "setctx 1 0", "setroutine 1", "settle", "exit old err 1", "settle", "gate hold", "waitgate 0", "restart", "settle", "open 0", "settle", "probe", "quiesce", "exit old ok", "quiesce"},
+			// a healthy instance started after a failure is moved to a new context by SetContext(restart=false)
+			{"cfg plain 0 0 1", "setctx 1 0", "setroutine 1", "settle", "exit old err 1", "settle", "restart", "settle", "probe", "setctx 2 0", "settle", "probe", "exit old ctx", "settle", "quiesce", "exit old ok", "quiesce"},
 			// a fresh execute goroutine held at its start, superseded, context cancelled by the environment
 			{"cfg plain 0 0 1", "setctx 1 0", "gate exec", "setroutine 1", "waitgate 0", "restart", "open 0", "settle", "cancelroot 1", "restart", "waitexited 1", "exit old ctx", "quiesce", "setctx 2 0", "settle", "exit old ok", "quiesce"},
 		},
